@@ -155,6 +155,10 @@ type Polyizer struct {
 	Inline bool
 	env    map[ssa.Value]Poly
 	depth  int
+	// tMax: while a loop's induction form is in use and its trip count is a
+	// constant, the largest value of the iteration number T (-1: unknown)
+	tMax    int64
+	tMaxSet bool
 }
 
 // pureBody returns the returned values of fn if fn is a single block that only
@@ -305,6 +309,30 @@ func (z *Polyizer) Of(v ssa.Value) Poly {
 					return pFdiv(k, z.Of(x.X))
 				}
 			}
+		case token.OR:
+			// a | b == a + b when no bit is set in both: a is a multiple of 2^k
+			// (every coefficient is) and 0 <= b < 2^k
+			pa, pb := z.Of(x.X), z.Of(x.Y)
+			for _, pr := range [][2]Poly{{pa, pb}, {pb, pa}} {
+				if hi, ok := z.upperBound(pr[1]); ok && len(pr[0]) > 0 {
+					fits := true
+					for _, cf := range pr[0] {
+						if cf == 0 {
+							continue
+						}
+						tz := 0
+						for c := cf; c&1 == 0 && tz < 63; c >>= 1 {
+							tz++
+						}
+						if tz >= 63 || hi >= int64(1)<<uint(tz) {
+							fits = false
+						}
+					}
+					if fits {
+						return pr[0].add(pr[1], 1)
+					}
+				}
+			}
 		case token.AND_NOT, token.AND:
 			// x & (2^k - 1)  ==  x - 2^k*fdiv_k(x)   (low-bits mask: the remainder)
 			if x.Op == token.AND {
@@ -364,6 +392,29 @@ func (z *Polyizer) Of(v ssa.Value) Poly {
 		}
 	}
 	return polyAtom(z.defaultAtom(v))
+}
+
+// upperBound: p is a constant, or c0 + c1*T with non-negative coefficients
+// while the range of T is known; its largest value.
+func (z *Polyizer) upperBound(p Poly) (int64, bool) {
+	hi := int64(0)
+	for mono, cf := range p {
+		if cf < 0 {
+			return 0, false
+		}
+		switch mono {
+		case "":
+			hi += cf
+		case loopT:
+			if !z.tMaxSet {
+				return 0, false
+			}
+			hi += cf * z.tMax
+		default:
+			return 0, false
+		}
+	}
+	return hi, true
 }
 
 // hasStructuralAdd: v is (through conversions) an addition, i.e. the constant
